@@ -179,7 +179,9 @@ def squashed_atoms(samples, loc, sc, lo, hi, alpha=ALPHA, ulps=4.0):
     pv = binom.sf(counts - 1, n, pcell)
     j = int(np.argmin(pv))
     worst = None
-    if pv[j] * len(vals) < alpha:
+    # every draw defines a cell that could have collected repeats: Bonferroni over the n draws (not only over the
+    # values that happened to repeat), and three more decades because thousands of laws are judged per run
+    if pv[j] * n < alpha * 1e-3:
         worst = {"value": float(vals[j]), "count": int(counts[j]), "draws": n, "cell_probability": float(pcell[j]),
                  "p": float(pv[j]), "preimage": [float(xa[j]), float(xb[j])]}
     return worst, int(len(vals))
